@@ -45,7 +45,8 @@ def random_params(family, n, K, scale, g, tails=False):
 
 
 def min_bins(family, tails):
-    return 2 if (family == "quadratic" and tails) else 1
+    """every family takes bin counts from 1 (the property says so); kept as a function for the callers"""
+    return 1
 
 
 def knots(family, params, left, right, bottom, top, tails=False, min_bin_width=1e-3):
